@@ -282,6 +282,9 @@ func c11Embedded(r *zsim.Run) {
 	o := r.Ops
 	ptr := o.Intn(2) == 1
 	ncols := 1 + o.Intn(4) // flattened field count is 4
+	if o.Intn(5) == 0 {
+		ncols = 5 + o.Intn(2) // more columns than the untagged destination has fields
+	}
 	strict := o.Intn(2) == 0
 	many := o.Intn(2) == 0
 	nrows := zsim.Pick(o, 1, 2, 0)
@@ -290,7 +293,8 @@ func c11Embedded(r *zsim.Run) {
 	if ptr {
 		kinds = []int{1, 1, 0, 0} // Name, Value, Score, Age
 	}
-	cols := []string{"c0", "c1", "c2", "c3"}[:ncols]
+	cols := []string{"c0", "c1", "c2", "c3", "c4", "c5"}[:ncols]
+	kinds = append(kinds, 0, 1)
 	data := make([][]driver.Value, nrows)
 	for row := range data {
 		for c := 0; c < ncols; c++ {
@@ -370,6 +374,12 @@ func c11Embedded(r *zsim.Run) {
 		}
 		return
 	}
+	if ncols > 4 && nrows > 0 && err != nil {
+		// columns that an untagged destination has no field for: refusing the result is one honest answer,
+		// filling the fields by position and ignoring the rest (checked below) is the other
+		r.Probe("untagged_extra_columns_refused")
+		return
+	}
 	if strict && ncols < 4 && nrows > 0 {
 		if !errors.Is(err, ErrNotMatchDestination) {
 			r.Failf("strict-missing-column-accepted", "strict mode: %d columns for a destination with 4 fields (two of them in an embedded struct): want ErrNotMatchDestination, got %v with %v", ncols, err, got)
@@ -398,6 +408,156 @@ func c11Embedded(r *zsim.Run) {
 				r.Failf("wrong-field-value", "embedded destination row %d position %d: got %v, want %v", row, c, got[row][c], want)
 				return
 			}
+		}
+	}
+}
+
+// destinations whose embedded struct carries db tags as well: mapped by column name, whatever the column order
+type C11InnerT struct {
+	Value string `db:"value"`
+	Score int64  `db:"score"`
+}
+
+type c11OuterT struct {
+	Name string `db:"name"`
+	Age  int64  `db:"age"`
+	C11InnerT
+}
+
+type c11OuterTPtr struct {
+	Name string `db:"name"`
+	*C11InnerT
+	Age int64 `db:"age"`
+}
+
+func c11EmbeddedTagged(r *zsim.Run) {
+	o := r.Ops
+	ptr := o.Intn(2) == 1
+	strict := o.Intn(3) == 0
+	many := o.Intn(2) == 0
+	nrows := zsim.Pick(o, 1, 2, 0)
+	names := []string{"name", "age", "value", "score"}
+	kindOf := map[string]int{"name": 1, "age": 0, "value": 1, "score": 0, "extra": 1}
+	// a permutation of the four columns, some of them possibly missing, possibly one the destination does not know
+	var cols []string
+	perm := []int{0, 1, 2, 3}
+	for i := 3; i > 0; i-- {
+		j := o.Intn(i + 1)
+		perm[i], perm[j] = perm[j], perm[i]
+	}
+	for _, i := range perm {
+		if strict || o.Intn(5) != 0 {
+			cols = append(cols, names[i])
+		}
+	}
+	if o.Intn(4) == 0 {
+		at := o.Intn(len(cols) + 1)
+		cols = append(cols[:at], append([]string{"extra"}, cols[at:]...)...)
+	}
+	if len(cols) == 0 {
+		cols = []string{"score"}
+	}
+	data := make([][]driver.Value, nrows)
+	for row := range data {
+		for c, name := range cols {
+			data[row] = append(data[row], c11Value(kindOf[name], row, c))
+		}
+	}
+	r.Logf("embedded tagged: ptr=%v cols=%v strict=%v many=%v nrows=%d", ptr, cols, strict, many, nrows)
+	r.NonTrivial()
+	fdb, db := zsql.New()
+	defer db.Close()
+	fdb.Rows = func(string, []driver.NamedValue) ([]string, [][]driver.Value, error) { return cols, data, nil }
+	conn := NewConnFromDB(db)
+	type flatT struct {
+		name, value string
+		age, score  int64
+	}
+	var err error
+	var got []flatT
+	var panicked any
+	func() {
+		defer func() { panicked = recover() }()
+		q := func(one, all any) {
+			switch {
+			case many && strict:
+				err = conn.QueryRows(all, "q")
+			case many:
+				err = conn.QueryRowsPartial(all, "q")
+			case strict:
+				err = conn.QueryRow(one, "q")
+			default:
+				err = conn.QueryRowPartial(one, "q")
+			}
+		}
+		if !ptr {
+			var d c11OuterT
+			var ds []c11OuterT
+			q(&d, &ds)
+			if !many {
+				ds = []c11OuterT{d}
+			}
+			for _, x := range ds {
+				got = append(got, flatT{x.Name, x.Value, x.Age, x.Score})
+			}
+		} else {
+			var d c11OuterTPtr
+			var ds []*c11OuterTPtr
+			q(&d, &ds)
+			if !many {
+				ds = []*c11OuterTPtr{&d}
+			}
+			for _, x := range ds {
+				f := flatT{name: x.Name, age: x.Age}
+				if x.C11InnerT != nil {
+					f.value, f.score = x.Value, x.Score
+				}
+				got = append(got, f)
+			}
+		}
+	}()
+	r.Logf("result err=%v panic=%v rows=%v", err, panicked, got)
+	if panicked != nil {
+		r.Failf("row-mapping-panic", "query mapping panicked: %v", panicked)
+		return
+	}
+	if !many && nrows == 0 {
+		if !errors.Is(err, ErrNotFound) {
+			r.Failf("empty-result-not-reported", "single-row query on an empty result returned %v, want ErrNotFound", err)
+		}
+		return
+	}
+	if nrows == 0 {
+		if err != nil || len(got) != 0 {
+			r.Failf("row-mapping-error", "an empty result gave err=%v rows=%v", err, got)
+		}
+		return
+	}
+	if err != nil {
+		r.Failf("row-mapping-error", "columns %v into a destination whose own and embedded fields are all tagged: unexpected error %v", cols, err)
+		return
+	}
+	if len(got) != nrows && many {
+		r.Failf("wrong-row-count", "QueryRows returned %d rows, want %d", len(got), nrows)
+		return
+	}
+	for row := 0; row < nrows && row < len(got); row++ {
+		want := flatT{}
+		for c, name := range cols {
+			switch name {
+			case "name":
+				want.name = c11Value(1, row, c).(string)
+			case "value":
+				want.value = c11Value(1, row, c).(string)
+			case "age":
+				want.age = c11Value(0, row, c).(int64)
+			case "score":
+				want.score = c11Value(0, row, c).(int64)
+			}
+		}
+		if got[row] != want {
+			r.Failf("wrong-field-value", "columns %v, row %d: destination with a tagged embedded struct holds %+v, the columns carry %+v", cols, row, got[row], want)
+			return
 		}
 	}
 }
@@ -504,8 +664,15 @@ func c11Repeat(r *zsim.Run) {
 func c11Rows(r *zsim.Run) {
 	o := r.Ops
 	switch o.Intn(8) {
-	case 3, 7:
+	case 3:
 		c11Embedded(r)
+		return
+	case 7:
+		if o.Intn(2) == 0 {
+			c11EmbeddedTagged(r)
+		} else {
+			c11Embedded(r)
+		}
 		return
 	case 5:
 		c11SameName(r)
